@@ -8,6 +8,8 @@ PlainKinds == MemberKinds \ (Methods \cup Readable \cup Writable)
 Constructible(x) == /\ x.mark = "member" => (x.kind \notin PlainKinds /\ ~PrivateName(x.name))
                     /\ x.mark = "forced" => (x.kind \notin PlainKinds /\ PrivateName(x.name))
                     /\ x.oneway => x.kind \in Methods
+                    \* (an attribute of the instance is not a definition of the class: it cannot override one)
+                    /\ x.where \in {"over_exposed", "over_plain"} => x.kind \notin {"instattr", "helper_plain", "helper_exposed", "helper_exposed_callable"}
 VARIABLE done
 GInit == done = FALSE /\ m = (CHOOSE x \in Members : TRUE) /\ rk = "call" /\ nv = "exact"
 GNext == /\ ~done /\ done' = TRUE /\ UNCHANGED <<m, rk, nv>>
